@@ -20,6 +20,7 @@ RULE = ("valid words with random letter case and whitespace injected at random p
 RULE += ("; added after the mutation rounds: FASTA-like and decorated strings; words spelling three-letter codes / file names, constructed in a directory holding files of those names; further non-strings (inf, numpy / Decimal NaN, objects with __str__, backend objects); the first cases of every shard are judged again at its end")
 RULE += ("; round 5: every non-ASCII code point that a case mapping sends onto residue letters (all positions) and a quarter (thorough: all) of the ~1100 that compatibility normalisation does; look-alike words and alphabets")
 RULE += ("; round 6: valid words wrapped in a pair of foreign characters (quotes, brackets, ...)")
+RULE += ("; round 7: text-like objects that are not str (UserString, Bio.Seq, MutableSeq, memoryview, PurePath, iterator); URL / quoted-printable / HTML / C escape sequences; foreign characters after a line break")
 EXHAUSTIVE = {"quick": False, "thorough": False}
 EXHAUSTIVE_NOTE = {"quick": "ASCII 0..127 x 3 positions x 2 base words; every isspace character",
                    "thorough": "ASCII 0..127 x 3 positions x 6 base words; every isspace character"}
@@ -30,7 +31,7 @@ ASSUMPTIONS = [
     "str subclasses and objects with exotic __eq__ are not driven (statement silent)",
 ]
 REQUIRED = {"all": ["accepted_valid", "accepted_with_whitespace", "accepted_lowercase", "rejected_invalid",
-                    "rejected_invalid_with_whitespace", "rejected_blank", "rejected_non_string", "battery_compared", "lookalike_code_points", "words_wrapped_in_a_pair_of_foreign_characters"]}
+                    "rejected_invalid_with_whitespace", "rejected_blank", "rejected_non_string", "battery_compared", "lookalike_code_points", "words_wrapped_in_a_pair_of_foreign_characters", "escape_sequences_and_foreign_characters_after_line_breaks"]}
 NVALID = {"quick": 1500, "thorough": 15000}
 NBASE = {"quick": 2, "thorough": 6}
 SPACES = [chr(i) for i in list(range(0, 0x3100)) if chr(i).isspace()]
@@ -68,7 +69,7 @@ def lookalike_code_points():
 
 NON_STRINGS = ["None", "0", "1", "1.5", "True", "False", "bytes", "bytearray", "list", "tuple", "dict", "object", "set",
                "list_empty", "nan", "inf", "np_nan", "np_inf32", "decimal_nan", "np_false", "str_method_object", "backend_sequence",
-               "letters_list", "complex"]
+               "letters_list", "complex", "userstring", "bio_seq", "bio_mutableseq", "bytes_like_memoryview", "pathlib_path", "str_iterator"]
 
 
 def mk_nonstring(tag):
@@ -104,6 +105,23 @@ def _more_nonstrings(tag):
         return list("ACDEF")
     if tag == "complex":
         return 1j
+    # objects that behave like text (upper(), iteration over one-letter strings) without being str
+    if tag == "userstring":
+        import collections
+        return collections.UserString("ACDEFGHIK")
+    if tag == "bio_seq":
+        from Bio.Seq import Seq
+        return Seq("ACDEFGHIK")
+    if tag == "bio_mutableseq":
+        from Bio.Seq import MutableSeq
+        return MutableSeq("ACDEFGHIK")
+    if tag == "bytes_like_memoryview":
+        return memoryview(b"ACDEFGHIK")
+    if tag == "pathlib_path":
+        import pathlib
+        return pathlib.PurePosixPath("ACDEFGHIK")
+    if tag == "str_iterator":
+        return iter("ACDEFGHIK")
     return None
 
 
@@ -166,6 +184,19 @@ def cases(tier, seed):
                        ('"', "'"), ("*", "*"), ("-", "-"), (".", "."), ("|", "|"), ("b'", "'"), ("'", "',"), ("['", "']")]:
             for s in (lq + base + rq, " " + lq + base + rq + "\n", lq + base.lower() + rq, lq + " " + base + " " + rq):
                 yield {"s": s, "wrapped": 1}
+    # escape sequences of other formats inside (or instead of parts of) a valid word: URL / quoted-printable / HTML / C escapes
+    # are several foreign characters, not blanks or residues
+    for base in bases[:2] + ["MKD"]:
+        for tok in ["%20", "%0A", "%0D", "%4B", "%4b", "%41%43", "+", "=20", "=0A", "&nbsp;", "&#75;", "&amp;", "\\n", "\\t", "\\x4b", "\\u004b", "<br>",
+                    "<br/>", "\\", "^M", "\x1b[0m"]:
+            i = len(base) // 2
+            for s in (base[:i] + tok + base[i:], tok + base, base + tok, base[:i] + "\n" + tok + base[i:]):
+                yield {"s": s, "escape": 1}
+    # a foreign character AFTER a line break (multi-line text is checked as a whole, not line by line)
+    for base in bases[:2]:
+        for ch in "+-0*.1>xX#":
+            for s in (base[:3] + "\n" + base[3:5] + ch + base[5:], base + "\n" + ch, base + "\r\n" + ch + base, "\n" + ch + base, base[:4] + "\n\n" + ch + "\n" + base[4:]):
+                yield {"s": s, "escape": 1}
     for i in range(NVALID[tier]):
         w = gen.rand_seq(rng, hi=120 if i % 6 == 0 else 30)
         chars = []
@@ -262,6 +293,8 @@ def judge(case, rep, S):
     valid = len(n) > 0 and all(c in M.AA for c in n)
     if case.get("lookalike"):
         rep.cnt("lookalike_code_points")
+    if case.get("escape"):
+        rep.cnt("escape_sequences_and_foreign_characters_after_line_breaks")
     if case.get("wrapped"):
         rep.cnt("words_wrapped_in_a_pair_of_foreign_characters")
     has_ws = any(c.isspace() for c in s)
